@@ -1712,16 +1712,20 @@ func (t *TBtree) Close() error {
 
 	t.closed = true
 
-	if t.root.tsMutated() {
-		if err := t.writeTsFile(); err != nil {
-			return err
-		}
-	}
+	tsMutated := t.root.tsMutated()
 
 	merrors := multierr.NewMultiErr()
 
 	_, _, err := t.flushTree(0, true, false, "close")
 	merrors.Append(err)
+
+	// the ts file must not run ahead of the persisted tree: written before the
+	// flush, a crash in between made the reopened index claim a logical time
+	// whose entries it does not hold
+	if err == nil && tsMutated {
+		err = t.writeTsFile()
+		merrors.Append(err)
+	}
 
 	err = t.nLog.Close()
 	merrors.Append(err)
